@@ -21,6 +21,7 @@ from . import c13
 from .c01 import fmt_tag
 
 ID = "C15"
+PROBES = ['fault_sessions', 'restarts', 'early_phase_crash_sessions', 'probe_formatter_failed_session_completed', 'probe_unparsable_formatter_output', 'references_resolved', 'inline_fault_sessions']  # reach probes: counters that must be non-zero in a run (a zero is printed and recorded)
 LEVEL = "fault_enumeration"
 BUDGET = {"quick": 10, "thorough": 480}
 WALL = {"quick": 420, "thorough": 3400}
